@@ -40,3 +40,17 @@ Theorem C06_link_alt_to_fl_shape : forall N : Num,
   (forall a, @alt_to_fl N a = alt_to_fl_div (@FL_TO_METERS N) a).
 Proof. intros N. first [left; reflexivity | right; reflexivity]. Qed.
 Print Assumptions C06_link_alt_to_fl_shape.
+
+(* the conversion is Lipschitz (it is linear), the hypothesis of C06_evaluate_continuous *)
+Theorem C06_link_alt_to_fl_lipschitz :
+  exists K, 0 <= K /\ forall a a', Rabs (@alt_to_fl RNum a' - @alt_to_fl RNum a) <= K * Rabs (a' - a).
+Proof.
+  exists (@alt_to_fl RNum 1).
+  assert (HK : 0 <= @alt_to_fl RNum 1).
+  { unfold alt_to_fl, FL_TO_METERS, METERS_TO_FL, METERS_TO_FEET, FEET_TO_METERS. rnum. lra. }
+  split; auto. intros a a'.
+  replace (@alt_to_fl RNum a' - @alt_to_fl RNum a) with (@alt_to_fl RNum 1 * (a' - a)).
+  - rewrite Rabs_mult, (Rabs_right (@alt_to_fl RNum 1)); lra.
+  - unfold alt_to_fl, FL_TO_METERS, METERS_TO_FL, METERS_TO_FEET, FEET_TO_METERS. rnum. field.
+Qed.
+Print Assumptions C06_link_alt_to_fl_lipschitz.
